@@ -1,6 +1,7 @@
 """C06 — entraited traits: Impl<T> forwards every method to T (Self / ref / Borrow)."""
 from ..common import Report
 from ..corpus import load, load_repo_tests
+from ..crossgen import load_cross
 from ..wrules import check_trait_forwarding, check_trait_predicates
 
 
@@ -9,6 +10,7 @@ def run(tier):
     configs = ["plain", "unimock_test"] if tier == "quick" else ["plain", "test", "unimock", "unimock_test"]
     programs = 0
     loaded = [(cfg, load(rep, "pos", cfg)) for cfg in configs]
+    loaded += [(cfg, load_cross(rep, cfg, tier)) for cfg in configs]
     if tier == "thorough":
         loaded.append(("unimock_test", load_repo_tests(rep)))
     for cfg, ld in loaded:
